@@ -29,6 +29,7 @@ sed -i "s#\"/repo/#\"$WT/#g" "$BASE/sim/Cargo.toml"
 mkdir -p "$BASE/sim/.cargo"
 printf '[net]\noffline = true\n[build]\ntarget-dir = "%s/target"\n' "$BASE" > "$BASE/sim/.cargo/config.toml"
 ( cd "$BASE/sim" && CARGO_NET_OFFLINE=true cargo build --release --offline > "$BASE/build.log" 2>&1 ) || { tail -30 "$BASE/build.log"; echo "MUTANT-BUILD-FAILED"; git -C "$WT" checkout -q -- .; exit 3; }
+cc -shared -fPIC -O2 -o "$BASE/target/entropy_shim.so" /verif/sim/shim/entropy_shim.c
 rc=0
 for ID in ${IDS//,/ }; do
   VERIF_OUT_DIR="$BASE/out" "$BASE/target/release/verif-sim" run "$ID" "$TIER"
